@@ -1,31 +1,31 @@
 package verifsim
 
 import (
-	"os"
 	"database/sql/driver"
 	"fmt"
 	"net"
+	"os"
 	"strconv"
 	"strings"
 	"time"
 )
 
 type SQLEvent struct {
-	Seq       uint64
-	T         time.Duration
-	Src       string
-	Dst       string
-	Kind      string
-	Query     string
-	Args      []any
-	Err       string
-	Mutating  bool
-	Effective bool // server state differed before/after
-	Applied   bool // statement reached the server and was executed
-	Before    string
-	After     string
-	Fault     string
-	CallerGone bool // the caller's context had already ended when the statement was delivered
+	Seq        uint64
+	T          time.Duration
+	Src        string
+	Dst        string
+	Kind       string
+	Query      string
+	Args       []any
+	Err        string
+	Mutating   bool
+	Effective  bool // server state differed before/after
+	Applied    bool // statement reached the server and was executed
+	Before     string
+	After      string
+	Fault      string
+	CallerGone bool          // the caller's context had already ended when the statement was delivered
 	Issued     time.Duration // instant at which the caller issued the statement
 	Pending    bool          // marker of a delayed statement; Final is its outcome once delivered
 	Final      *SQLEvent
@@ -451,7 +451,6 @@ func (s *Sim) deliverSQL(c *call, flt string) {
 	}
 	s.finishSQL(c, res, true)
 }
-
 
 func (s *Sim) deliverZKDial(c *call) {
 	host := srcHostOf(c.src)
